@@ -487,6 +487,9 @@ pub fn profile_for(prop: &str, tier: &str) -> Profile {
             p.w_rollback = 2;
             p.w_edit = 6;
             p.w_forge = 2;
+            // re-encapsulation is an API call with a contract of its own: more of it, after more disables
+            p.w_recaps = 3;
+            p.w_edits = [2, 1, 4, 3, 2, 4];
         }
         "C11" => {
             p.hybrid_pct = 50;
